@@ -426,6 +426,7 @@ func Run[S any](t *testing.T, id, name string, checks int, gen func(*rapid.T) S,
 	}
 
 	// regression tier: committed scenarios for this check
+	regFailed := false
 	regDir := filepath.Join(verifRoot, "replays", id)
 	if ents, err := os.ReadDir(regDir); err == nil {
 		names := []string{}
@@ -444,13 +445,16 @@ func Run[S any](t *testing.T, id, name string, checks int, gen func(*rapid.T) S,
 			r.st.Regressions++
 			msg, v, _, _ := r.judge(sc, true)
 			if msg != "" {
+				regFailed = true
 				r.st.Violations = append(r.st.Violations, violationRec{Check: name, Message: msg, Signature: v.Signature, Replay: p})
 				fmt.Printf("VIOLATION property=%s replay=%s\n", id, p)
 				t.Errorf("%s/%s regression scenario %s: %s", id, name, p, msg)
 			}
 		}
 	}
-	if t.Failed() {
+	// not t.Failed(): under the race detector that also reports a race seen so far, and a race report is
+	// judged by the driver (by the code owning the racing accesses), not by skipping the generated cases
+	if regFailed {
 		return
 	}
 	if checks <= 0 {
@@ -476,15 +480,19 @@ func Run[S any](t *testing.T, id, name string, checks int, gen func(*rapid.T) S,
 			outMu.Unlock()
 		}
 	}()
-	rapid.Check(t, func(rt *rapid.T) {
-		sc := gen(rt)
-		msg, v, js, h := r.judge(sc, !r.failed)
-		if msg != "" {
-			r.failed = true
-			r.lastJS, r.lastH, r.lastV = js, h, v
-			r.last = &violationRec{Check: name, Message: msg, Signature: v.Signature}
-			rt.Fatalf("%s/%s: %s", id, name, msg)
-		}
+	// in a sub-test: rapid refuses a *testing.T that has already failed, and under the race detector a T counts
+	// as failed from the moment a race was reported (a sub-test starts with a clean slate)
+	t.Run("generated", func(st *testing.T) {
+		rapid.Check(st, func(rt *rapid.T) {
+			sc := gen(rt)
+			msg, v, js, h := r.judge(sc, !r.failed)
+			if msg != "" {
+				r.failed = true
+				r.lastJS, r.lastH, r.lastV = js, h, v
+				r.last = &violationRec{Check: name, Message: msg, Signature: v.Signature}
+				rt.Fatalf("%s/%s: %s", id, name, msg)
+			}
+		})
 	})
 }
 
